@@ -1036,3 +1036,340 @@ func keysOf(m map[string]int64) []string {
 	sort.Strings(out)
 	return out
 }
+
+// ruleRecoveryLastTableMutable: recovery hands its LAST memtable to the pool as the active table, and MemTable.Put/Delete
+// return silently on an immutable table. So in memtable.RecoverFromWAL a table may be sealed (SetImmutable) only on a path
+// that also appends a fresh table behind it before the handler returns: the last table is never sealed.
+func ruleRecoveryLastTableMutable(c *Ctx, r *Reporter) {
+	r.Rule("recovered-active-table-is-mutable", 1)
+	rec := c.Func("pkg/memtable", "", "RecoverFromWAL")
+	seal := c.Func("pkg/memtable", "MemTable", "SetImmutable")
+	newMT := c.Func("pkg/memtable", "", "NewMemTable")
+	if rec == nil || seal == nil || newMT == nil {
+		r.Unresolved("memtable.RecoverFromWAL / MemTable.SetImmutable / NewMemTable", "not found")
+		return
+	}
+	n := 0
+	fns := append([]*ssa.Function{rec}, rec.AnonFuncs...)
+	for _, fn := range fns {
+		AllInstrs(fn, false, func(_ *ssa.Function, ins ssa.Instruction) {
+			call, ok := ins.(*ssa.Call)
+			if !ok || call.Call.StaticCallee() != seal {
+				return
+			}
+			n++
+			// a fresh table appended to the recovered list: store of append(list, NewMemTable()) / append(list, x) with x fresh
+			isAppendFresh := func(x ssa.Instruction) bool {
+				st, ok := x.(*ssa.Store)
+				if !ok {
+					return false
+				}
+				ap, ok := st.Val.(*ssa.Call)
+				if !ok {
+					return false
+				}
+				b, isB := ap.Call.Value.(*ssa.Builtin)
+				if !isB || b.Name() != "append" {
+					return false
+				}
+				return strings.Contains(Path(ap.Call.Args[1]), "NewMemTable") || strings.Contains(fmt.Sprint(ap.Call.Args[1].Type()), "MemTable")
+			}
+			hit, path := ReachE(fn, ins, func(x ssa.Instruction) bool {
+				ret, isR := x.(*ssa.Return)
+				return isR && ClassifyReturn(ret) != ExitFailure
+			}, isAppendFresh, nil)
+			r.Check(hit == nil, FnName(fn)+":seal-then-append", c.InsPos(ins), "a recovered table is sealed only on a path that appends a fresh table behind it",
+				"a recovered memtable can be sealed without a fresh table being appended behind it before the handler returns: when the log ends there, the storage manager installs a SEALED table as the active one, MemTable.Put/Delete return silently on it, and the first write after the reopen is logged and acknowledged but never reaches memory", c.PathString(path)...)
+		})
+	}
+	if n == 0 {
+		r.Info("memtable.RecoverFromWAL:seal", c.FnPos(rec), "recovery seals no table")
+		r.OK("memtable.RecoverFromWAL:seal:none", c.FnPos(rec), "nothing to require")
+	}
+}
+
+// ---------------------------------------------------------------- round 5
+
+// derivesFrom: v is computed from something satisfying pred through string/path building (Sprintf, Join, +, conversions).
+func flowsFromPred(v ssa.Value, pred func(ssa.Value) bool, d int, seen map[ssa.Value]bool) bool {
+	if v == nil || d > 10 || seen[v] {
+		return false
+	}
+	seen[v] = true
+	if pred(v) {
+		return true
+	}
+	switch x := v.(type) {
+	case *ssa.Call:
+		for _, a := range x.Call.Args {
+			if flowsFromPred(a, pred, d+1, seen) {
+				return true
+			}
+		}
+	case *ssa.BinOp:
+		return flowsFromPred(x.X, pred, d+1, seen) || flowsFromPred(x.Y, pred, d+1, seen)
+	case *ssa.Convert:
+		return flowsFromPred(x.X, pred, d+1, seen)
+	case *ssa.ChangeType:
+		return flowsFromPred(x.X, pred, d+1, seen)
+	case *ssa.MakeInterface:
+		return flowsFromPred(x.X, pred, d+1, seen)
+	case *ssa.Slice:
+		return flowsFromPred(x.X, pred, d+1, seen)
+	case *ssa.Phi:
+		for _, e := range x.Edges {
+			if flowsFromPred(e, pred, d+1, seen) {
+				return true
+			}
+		}
+	case *ssa.UnOp:
+		if x.Op == token.MUL {
+			// varargs array cell / local cell: what was stored there
+			switch a := x.X.(type) {
+			case *ssa.Alloc:
+				for _, ref := range *a.Referrers() {
+					if st, ok := ref.(*ssa.Store); ok && st.Addr == ssa.Value(a) && flowsFromPred(st.Val, pred, d+1, seen) {
+						return true
+					}
+				}
+			case *ssa.IndexAddr:
+				return flowsFromPred(a.X, pred, d+1, seen)
+			}
+		}
+	case *ssa.Alloc:
+		// a varargs array: any element stored into it
+		for _, ref := range *x.Referrers() {
+			if ia, ok := ref.(*ssa.IndexAddr); ok && ia.Referrers() != nil {
+				for _, rr := range *ia.Referrers() {
+					if st, ok := rr.(*ssa.Store); ok && flowsFromPred(st.Val, pred, d+1, seen) {
+						return true
+					}
+				}
+			}
+		}
+	}
+	return false
+}
+
+// ruleTempFilePerTable: the temporary file an SSTable is written to is named after the table's own file name (so two
+// writers in one directory never share it) and lives in the table's directory (so the rename is atomic).
+func ruleTempFilePerTable(c *Ctx, r *Reporter) {
+	r.Rule("temp-file-is-per-table", 1)
+	fn := c.Func("pkg/sstable", "", "NewFileManager")
+	if fn == nil || len(fn.Params) < 1 {
+		r.Unresolved("sstable.NewFileManager", "not found")
+		return
+	}
+	path := ssa.Value(fn.Params[0])
+	var create *ssa.Call
+	AllInstrs(fn, false, func(_ *ssa.Function, ins ssa.Instruction) {
+		if call, ok := ins.(*ssa.Call); ok && (staticName(call) == "os.Create" || staticName(call) == "os.OpenFile") {
+			create = call
+		}
+	})
+	if create == nil {
+		r.Undecided("sstable.NewFileManager:create", c.FnPos(fn), "no file creation found")
+		return
+	}
+	isBaseOfPath := func(v ssa.Value) bool {
+		call, ok := v.(*ssa.Call)
+		return ok && staticName(call) == "path/filepath.Base" && call.Call.Args[0] == path
+	}
+	isPathItself := func(v ssa.Value) bool { return v == path }
+	named := flowsFromPred(create.Call.Args[0], isBaseOfPath, 0, map[ssa.Value]bool{}) || flowsFromPred(create.Call.Args[0], isPathItself, 0, map[ssa.Value]bool{}) && !flowsFromPred(create.Call.Args[0], func(v ssa.Value) bool {
+		call, ok := v.(*ssa.Call)
+		return ok && staticName(call) == "path/filepath.Base"
+	}, 0, map[ssa.Value]bool{})
+	r.Check(named, "sstable.NewFileManager:temp-name", c.InsPos(create), "the temporary file's name contains the table's own file name",
+		"the temporary file's name ("+Path(create.Call.Args[0])+") does not depend on the table's own file name: two writers open in the same directory (a flush overlapping a compaction) share one temporary file; the first Finish renames it, the second writes its table into the first one's name")
+}
+
+// ruleWalFileWriters: the log file is written through the buffered writer only, and the record write path never flushes or
+// syncs on its own. AppendBatch relies on a whole batch reaching the file in one write (the log has no batch frame).
+func ruleWalFileWriters(c *Ctx, r *Reporter) {
+	r.Rule("log-file-written-through-the-buffer-only", 2)
+	a := getWalAnchors(c, r)
+	if !a.ok {
+		return
+	}
+	var direct []string
+	for _, fn := range c.KevoFns {
+		if pkgOf(fn) != "pkg/wal" {
+			continue
+		}
+		AllInstrs(fn, false, func(_ *ssa.Function, ins ssa.Instruction) {
+			call, ok := ins.(*ssa.Call)
+			if !ok {
+				return
+			}
+			switch staticName(call) {
+			case "(*os.File).Write", "(*os.File).WriteString", "(*os.File).WriteAt", "(*os.File).ReadFrom":
+				if isLoadOfField(call.Call.Args[0], a.file) {
+					direct = append(direct, staticName(call)+" in "+FnName(topParent(fn))+" at "+c.InsPos(ins))
+				}
+			}
+		})
+	}
+	r.Check(len(direct) == 0, "wal.WAL.file:direct-writes", "", "no direct write to the log file: everything goes through the buffered writer",
+		"the log file is written directly, past the buffered writer ("+strings.Join(direct, "; ")+"): part of a batch reaches the file while the rest is still in the buffer, and a stop in between leaves a strict subset of a committed transaction in the log")
+	// the record write path does not flush or sync
+	var bad []string
+	for _, fn := range []*ssa.Function{a.writeRecord, a.writeRaw, a.writeData, a.writeFrag} {
+		if fn == nil {
+			continue
+		}
+		AllInstrs(fn, false, func(_ *ssa.Function, ins ssa.Instruction) {
+			call, ok := ins.(*ssa.Call)
+			if !ok {
+				return
+			}
+			switch staticName(call) {
+			case "(*bufio.Writer).Flush", "(*os.File).Sync":
+				bad = append(bad, staticName(call)+" in "+FnName(fn)+" at "+c.InsPos(ins))
+			}
+			if g := call.Call.StaticCallee(); g != nil && (g == a.maybeSync || g == a.syncLocked || g == a.sync) {
+				bad = append(bad, FnName(g)+" in "+FnName(fn)+" at "+c.InsPos(ins))
+			}
+		})
+	}
+	r.Check(len(bad) == 0, "wal.WAL.writeRecord*:no-flush", "", "the record writers never flush or sync (only the Append* entry points do, after the last record)",
+		"a record writer flushes or syncs on its own ("+strings.Join(bad, "; ")+"): inside AppendBatch this puts a prefix of the batch on disk before the rest is written")
+}
+
+// ruleReuseNewestOnly: ReuseWAL appends to the NEWEST log file only (the last of the sorted list) — appending to an older
+// file puts new operations before the contents of the newer files in replay order.
+func ruleReuseNewestOnly(c *Ctx, r *Reporter) {
+	r.Rule("reuse-appends-to-the-newest-file", 1)
+	reuse := c.Func("pkg/wal", "", "ReuseWAL")
+	find := c.Func("pkg/wal", "", "FindWALFiles")
+	if reuse == nil || find == nil {
+		r.Unresolved("wal.ReuseWAL / FindWALFiles", "not found")
+		return
+	}
+	var open *ssa.Call
+	AllInstrs(reuse, false, func(_ *ssa.Function, ins ssa.Instruction) {
+		if call, ok := ins.(*ssa.Call); ok && staticName(call) == "os.OpenFile" {
+			open = call
+		}
+	})
+	if open == nil {
+		r.Undecided("wal.ReuseWAL:open", c.FnPos(reuse), "no os.OpenFile in ReuseWAL")
+		return
+	}
+	// the path opened: files[len(files)-1]
+	isLast := func(v ssa.Value) bool {
+		ld, ok := v.(*ssa.UnOp)
+		if !ok || ld.Op != token.MUL {
+			return false
+		}
+		ia, ok := ld.X.(*ssa.IndexAddr)
+		if !ok {
+			return false
+		}
+		sub, ok := ia.Index.(*ssa.BinOp)
+		if !ok || sub.Op != token.SUB {
+			return false
+		}
+		k, isK := constInt(sub.Y)
+		if !isK || k != 1 {
+			return false
+		}
+		ln, ok := sub.X.(*ssa.Call)
+		if !ok {
+			return false
+		}
+		b, isB := ln.Call.Value.(*ssa.Builtin)
+		return isB && b.Name() == "len" && ln.Call.Args[0] == ia.X
+	}
+	arg := resolveLoad(open.Call.Args[0])
+	r.Check(isLast(arg), "wal.ReuseWAL:file-chosen", c.InsPos(open), "the file reopened for appending is the last of the sorted list",
+		"the file reopened for appending ("+Path(open.Call.Args[0])+") is not simply the newest one: operations appended to an older file are replayed BEFORE the contents of the newer files (append order across files is broken)")
+}
+
+// ruleWalReaderNoConstantLimits: the log reader puts no constant upper bound on a decoded key/value length: the writer
+// accepts any length (long keys are spread over fragments), so such a bound rejects entries that were written successfully —
+// and replay treats the rejection as corruption and silently skips what follows.
+func ruleWalReaderNoConstantLimits(c *Ctx, r *Reporter) {
+	r.Rule("reader-accepts-what-the-writer-writes", 1)
+	var bad []string
+	for _, fn := range c.KevoFns {
+		if pkgOf(fn) != "pkg/wal" || recvTypeName(fn) != "wal.Reader" {
+			continue
+		}
+		for _, b := range fn.Blocks {
+			if len(b.Instrs) == 0 {
+				continue
+			}
+			iff, ok := b.Instrs[len(b.Instrs)-1].(*ssa.If)
+			if !ok {
+				continue
+			}
+			bo, ok := iff.Cond.(*ssa.BinOp)
+			if !ok {
+				continue
+			}
+			x, y, op := bo.X, bo.Y, bo.Op
+			if _, isK := constInt(x); isK {
+				x, y, op = y, x, flipOp(op)
+			}
+			k, isK := constInt(y)
+			if !isK || (op != token.GTR && op != token.GEQ) || k < 1024 {
+				continue
+			}
+			if flowsFromPred(x, func(v ssa.Value) bool {
+				call, ok := v.(*ssa.Call)
+				return ok && strings.HasSuffix(staticName(call), ".Uint32")
+			}, 0, map[ssa.Value]bool{}) {
+				bad = append(bad, CondString(bo)+" in "+FnName(fn)+" at "+c.InsPos(iff))
+			}
+		}
+	}
+	r.Check(len(bad) == 0, "wal.Reader:constant-length-limits", "", "no constant upper bound on a decoded key/value length",
+		"the reader rejects entries whose decoded length exceeds a constant ("+strings.Join(bad, "; ")+") although the writer accepts them (long keys and values are fragmented): the entry is acknowledged but can never be read back, and replay skips what follows it")
+}
+
+// ruleExecutorGetsTracker: the default executor is constructed with the coordinator's tombstone tracker AFTER that tracker
+// was defaulted: the NewCompactionExecutor call is unreachable on a path where options.TombstoneManager may still be nil.
+// (An executor built with a nil tracker falls back to the level rule alone and drops tombstones the coordinator recorded.)
+func ruleExecutorGetsTracker(c *Ctx, r *Reporter) {
+	r.Rule("executor-gets-the-tombstone-tracker", 1)
+	fn := c.Func("pkg/compaction", "", "NewCompactionCoordinator")
+	newEx := c.Func("pkg/compaction", "", "NewCompactionExecutor")
+	tmF := c.Field("pkg/compaction", "CompactionCoordinatorOptions", "TombstoneManager")
+	if fn == nil || newEx == nil || tmF == nil {
+		r.Unresolved("compaction.NewCompactionCoordinator / NewCompactionExecutor / CompactionCoordinatorOptions.TombstoneManager", "not found")
+		return
+	}
+	var call *ssa.Call
+	AllInstrs(fn, false, func(_ *ssa.Function, ins ssa.Instruction) {
+		if cl, ok := ins.(*ssa.Call); ok && cl.Call.StaticCallee() == newEx {
+			call = cl
+		}
+	})
+	if call == nil {
+		r.Info(FnName(fn)+":executor", c.FnPos(fn), "no default executor is constructed here")
+		r.OK(FnName(fn)+":executor:none", c.FnPos(fn), "nothing to require")
+		return
+	}
+	// the tracker argument is the options field
+	argOK := false
+	for _, a := range call.Call.Args {
+		if isLoadOfField(resolveLoad(a), tmF) || strings.Contains(Path(a), "TombstoneManager") {
+			argOK = true
+		}
+	}
+	nonNil := func(cond ssa.Value) (bool, bool) {
+		v, trueIsNonNil, ok := nilTest(cond)
+		if !ok || !(isLoadOfField(v, tmF) || strings.Contains(Path(v), "TombstoneManager")) {
+			return false, false
+		}
+		return trueIsNonNil, !trueIsNonNil
+	}
+	isDefault := func(x ssa.Instruction) bool {
+		st, ok := x.(*ssa.Store)
+		return ok && fieldVarOf(st.Addr) == tmF && !isNilConst(st.Val)
+	}
+	hit, path := ReachE(fn, nil, func(x ssa.Instruction) bool { return x == ssa.Instruction(call) }, isDefault, PruneFactEdges(nonNil))
+	r.Check(argOK && hit == nil, FnName(fn)+":executor-tracker", c.InsPos(call), "the default executor receives options.TombstoneManager after it was defaulted",
+		"the default executor can be constructed while options.TombstoneManager is still nil (the default is applied later, or another value is passed): the executor never consults the deletes the coordinator records and drops their tombstones by the level rule alone — a deleted key comes back when an older version sits in a deeper level", c.PathString(path)...)
+}
